@@ -1,5 +1,5 @@
 (* C02 — LanguageIdentifier parsing accepts exactly the well-formed language identifiers. *)
-From UL Require Import Bytes Subtags LangId Grammar LangIdSpec LangIdProofs.
+From UL Require Import Bytes Subtags LangId Grammar LangIdSpec LangIdProofs SplitProofs StringLevel.
 From Coq Require Import String.
 
 (* for every byte string: Ok with exactly the value of the EBNF reading, else the documented error
@@ -36,6 +36,26 @@ Proof. vm_compute. reflexivity. Qed.
 Example C02_ex_err : langid_from_bytes (bs "e1-US"%string) = Err InvalidLanguage
   /\ langid_from_bytes (bs "en-abcd-Latn"%string) = Err InvalidSubtag.
 Proof. split; vm_compute; reflexivity. Qed.
+
+(* the same on BYTE STRINGS, in the words of the statement: accepted with value v iff the string IS
+   language (sep script)? (sep region)? (sep variant)*  with every sep '-' or '_' (`weave` interleaves
+   tokens and separators) and v the normalised reading; otherwise the error is decided by the first subtag *)
+Theorem C02_string_ebnf : forall s v,
+  langid_from_bytes s = Ok v <->
+  exists toks seps, s = weave toks seps /\ forallb is_sep seps = true /\ S (List.length seps) = List.length toks /\ WFLangIdToks toks v.
+Proof. exact langid_string_ebnf. Qed.
+Theorem C02_string_reject : forall s, (forall v, langid_from_bytes s <> Ok v) ->
+  langid_from_bytes s = Err (if lang_tok (hd [] (split s)) then InvalidSubtag else InvalidLanguage).
+Proof. exact langid_string_reject. Qed.
+(* every byte string is the weave of its tokens and separators, and split inverts weave: the quantification
+   over (toks, seps) above is a re-reading of the quantification over strings, nothing is lost *)
+Theorem C02_weave_split : forall s, weave (split s) (seps_of s) = s /\ S (List.length (seps_of s)) = List.length (split s).
+Proof. exact weave_split. Qed.
+Example C02_string_ex : weave [bs "en"; bs "Latn"; bs "US"; bs "valencia"]%string [95; 45; 95]%N = bs "en_Latn-US_valencia"%string.
+Proof. vm_compute. reflexivity. Qed.
+Print Assumptions C02_string_ebnf.
+Print Assumptions C02_string_reject.
+Print Assumptions C02_weave_split.
 
 Print Assumptions C02_accepts_exactly.
 Print Assumptions C02_recogniser_is_ebnf.
